@@ -704,19 +704,11 @@ class BinaryOp(Expr):
             return -1 if x else 0
 
         def limit(x):
-            if not self.left.type.is_integral:
-                return x
-
-            c_type = {
-                Type.INTEGER: ctypes.c_short,
-                Type.LONG: ctypes.c_long,
-                Type.SINGLE: ctypes.c_float,
-                Type.DOUBLE: ctypes.c_double,
-            }[self.type]
-            result = c_type(x).value
-            if result != x:
+            # a result the expression's type cannot hold is an overflow;
+            # it is left to be raised at run time (see Expr.fold)
+            if not self.type.can_hold(x):
                 raise OverflowError
-            return result
+            return x
 
         result = {
             Operator.CMP_EQ: lambda a, b: qbool(a == b),
